@@ -165,16 +165,30 @@ func RunSharedRT(seed int64, out io.Writer) {
 		}
 		in.ctx, in.cancel = context.WithCancel(context.Background())
 		src := in.lm.src()
+		// a listener that takes its time inside the allocated event (user code runs in the acquisition loop's goroutine):
+		// the partition must still be given up when its lease, counted from the request, has run out
+		var slowAlloc time.Duration
+		if seed%3 == 0 {
+			slowAlloc = 350 * time.Millisecond
+		}
+		slowListener := func(inner func(event string, val int, msg string, metadata interface{})) func(event string, val int, msg string, metadata interface{}) {
+			return func(event string, val int, msg string, metadata interface{}) {
+				inner(event, val, msg, metadata)
+				if event == "allocated" && slowAlloc > 0 {
+					time.Sleep(slowAlloc)
+				}
+			}
+		}
 		if gen == 1 {
 			r := b1.NewAzureSharedResource("acct", "cont", uint32(shared)).
 				WithFactor(uint32(factor)).WithReservedCapacity(uint32(reserved)).WithMaxInterval(uint32(maxint))
 			r.VerifSetLeaseManager(rtLM1{in.lm})
-			r.AddListener(sharedListener(lg, src))
+			r.AddListener(slowListener(sharedListener(lg, src)))
 			in.r1 = r
 		} else {
 			r := b2.NewSharedResource().WithFactor(uint32(factor)).WithReservedCapacity(uint32(reserved)).WithMaxInterval(uint32(maxint)).
 				WithSharedCapacity(uint32(shared), rtLM2{in.lm})
-			r.AddListener(sharedListener(lg, src))
+			r.AddListener(slowListener(sharedListener(lg, src)))
 			in.r2 = r
 		}
 		insts = append(insts, in)
